@@ -92,7 +92,21 @@ def r1_column_space(ctx):
     N = Normalizer(f.node, inline=False)
     by_cond = {bool_key(N.conj(astx.path_condition(f.node, st, pm, carried=False))): astx.u(dv) for st, dv in rk}
     root = [k for k, v in frames.items() if v[0][0] == "ORIG"][0]
-    good = by_cond.get("truthy(rank_cols)") == f"list({root}.columns[rank_cols])" and by_cond.get("not truthy(rank_cols)") == f"list({root}.columns)"
+    from vk.algebra import implies, spec_guard, NOT
+    asked = spec_guard("bool(rank_cols)")
+    seen = set()
+    good = bool(rk)
+    for st, dv in rk:
+        cond = N.conj(astx.path_condition(f.node, st, pm, carried=False))
+        if implies(cond, asked):
+            good = good and astx.u(dv) == f"list({root}.columns[rank_cols])"
+            seen.add("asked")
+        elif implies(cond, NOT(asked)):
+            good = good and astx.u(dv) == f"list({root}.columns)"
+            seen.add("all")
+        else:
+            good = False
+    good = good and seen == {"asked", "all"}
     ctx.check(good, f, rk[0][0] if rk else f.node, "ranking columns = the requested columns in the requested order (all columns when none requested)", str(by_cond),
               f"ranking column selection is {by_cond}")
     rm = [c for c in astx.calls_in(f.node, "remove") if astx.u(c.func.value) == "ranks"]
@@ -207,21 +221,41 @@ def r4_scottish(ctx):
                 good = False
     cand_block = [u_ for u_ in uses if astx.is_const(u_.slice.upper, -1)]
     ballot_block = [u_ for u_ in uses if astx.is_const(u_.slice.lower, 1)]
-    ctx.check(good and len(cand_block) == 1 and len(ballot_block) == 2 and len(uses) == 3, f, uses[0] if uses else f.node,
-              "candidate block = data[split:-1], ballot block = data[1:split], same split = len(data) - (cand_num + 1) at all three uses", str(shapes),
+    # (the ballot block is sliced once for the loop and possibly once more to pre-size the list it fills)
+    ctx.check(good and len(cand_block) == 1 and len(ballot_block) in (1, 2) and len(uses) == 1 + len(ballot_block), f, uses[0] if uses else f.node,
+              "candidate block = data[split:-1], ballot block = data[1:split], same split = len(data) - (cand_num + 1) at every use", str(shapes),
               f"slices are {shapes}; all non-constant bounds must equal len(data) - (cand_num + 1)")
     defs = astx.single_assignments(f.node)
-    good = defs.get("(cand_num, seats)") == "(data[0][0], data[0][1])" and defs.get("ward") == "data[-1][0]"
+    # the first row is checked to have exactly two entries (C18.R3), so unpacking it whole or by index is the same
+    good = defs.get("(cand_num, seats)") in ("(data[0][0], data[0][1])", "data[0]") and defs.get("ward") == "data[-1][0]"
     ctx.check(good, f, f.node, "metadata: (candidates, seats) from the first row, ward from the last", "", f"metadata extraction is {defs.get('(cand_num, seats)')}, {defs.get('ward')}")
     lp = astx.enclosing(cand_block[0], astx.parents(f.node), ast.For) if cand_block else None
     good = False
-    if lp is not None and astx.call_name(lp.iter) == "enumerate":
+    if lp is not None and astx.call_name(lp.iter) == "enumerate" and isinstance(lp.target, ast.Tuple) and len(lp.target.elts) == 2:
         i, line = [astx.u(x) for x in lp.target.elts]
-        good = defs.get(f"num_to_cand[{i} + 1]") == "cand" and defs.get("cand") == f"{line}[1]" and defs.get("party") == f"{line}[2]" and defs.get("cand_to_party[cand]") == "party"
+        start = lp.iter.args[1] if len(lp.iter.args) > 1 else next((k.value for k in lp.iter.keywords if k.arg == "start"), None)
+        start = 0 if start is None else astx.const(start)
+        # the number stored for the k-th candidate line (k from 0) is k + 1: key - index == 1 - start
+        keys = [k for k in defs if k.startswith("num_to_cand[")]
+        okkey = False
+        if len(keys) == 1 and isinstance(start, int):
+            try:
+                kk = Normalizer(f.node, inline=False, int_atoms=lambda a: True).rat(ast.parse(keys[0], mode="eval").body.slice)
+                okkey = kk.equals(spec_rat(f"{i} + {1 - start}", int_atoms=lambda a: True))
+            except NotClosedForm:
+                okkey = False
+        good = okkey and defs.get(keys[0]) == "cand" and defs.get("cand") == f"{line}[1]" and defs.get("party") == f"{line}[2]" and defs.get("cand_to_party[cand]") == "party"
     ctx.check(good, f, lp or f.node, "candidate numbers are 1-based positions in the candidate block; name and party from columns 1 and 2", "", "candidate numbering / fields changed")
-    good = defs.get("ballot_weight") == "Fraction(line[0])" and defs.get("cand_ordering") == "line[1:]" and \
-        defs.get("ranking") == astx.A("tuple([frozenset({num_to_cand[n]}) for n in cand_ordering])") and defs.get("ballots[i]") == "Ballot(ranking=ranking, weight=ballot_weight)"
-    ctx.check(good, f, f.node, "ballot line = multiplicity followed by candidate numbers, mapped to the declared candidates in order", "", "ballot-line parsing changed")
+    from vk.listform import build_of
+    bl = build_of(f.node, ast.Name(id="ballots", ctx=ast.Load()))
+    good = False
+    if bl is not None and bl.kind == "map" and not bl.conditional:
+        line = bl.var
+        good = defs.get("ballot_weight") == f"Fraction({line}[0])" and defs.get("cand_ordering") == f"{line}[1:]" and \
+            defs.get("ranking") == astx.A("tuple([frozenset({num_to_cand[n]}) for n in cand_ordering])") and astx.u(bl.elt) == "Ballot(ranking=ranking, weight=ballot_weight)" \
+            and any(bl.iter is u_ or astx.u(bl.iter) == astx.u(u_) for u_ in ballot_block)
+    ctx.check(good, f, f.node, "ballot line = multiplicity followed by candidate numbers, mapped to the declared candidates in order; one ballot per line of the ballot block", "",
+              "ballot-line parsing changed")
     rets = [n for n in astx.walk_own(f.node) if isinstance(n, ast.Return)]
     ctx.check(len(rets) == 1 and astx.u(rets[0].value) == "(profile, seats, cand_list, cand_to_party, ward)" and
               defs.get("profile") == "PreferenceProfile(ballots=tuple(ballots), candidates=tuple(cand_list)).condense_ballots()", f, rets[0] if rets else f.node,
